@@ -311,20 +311,20 @@ func TestVerifKF_C08_root_part(t *testing.T) {
 		}
 	}
 	// Write with such a key puts its temp file into the PARENT of the root; it is removed again
-	// when the rename onto the root directory fails, so it is only observable if the process
-	// dies in between: kill the child on entry to its first rename.
+	// when the rename onto the root directory is refused, so it is only observable if the
+	// process dies in between: kill the child on entry to the unlink that cleans it up.
 	if _, err := exec.LookPath("strace"); err == nil && os.Getenv("VERIF_BIN") != "" {
 		s := c08Scenario{Op: "write", Key: ".", Size: 10, StalePart: -1, seed: 1}
 		if j, err := c08Setup(&s); err == nil {
 			before, _ := j.Snap()
-			for _, rn := range []string{"renameat", "rename", "renameat2"} {
+			for _, rn := range []string{"unlinkat", "unlink"} {
 				_, killed, _, _, rerr := c08Run(j, &s, []c08Sys{{Name: rn}}, 0)
 				if rerr != nil || !killed {
 					continue
 				}
 				if _, _, viol := j.CheckConfined(before); viol != "" {
 					reproduced = true
-					detail = append(detail, fmt.Sprintf("Write(\".\") killed before its rename: %s", viol))
+					detail = append(detail, fmt.Sprintf("Write(\".\") killed before its temp-file cleanup: %s", viol))
 				}
 				break
 			}
